@@ -393,6 +393,18 @@ func Backward(v ssa.Value) map[ssa.Value]bool { return BackwardOpt(v, nil) }
 
 // BackwardOpt is Backward with a choice of calls whose arguments (and callee value) are followed too.
 func BackwardOpt(v ssa.Value, followCall func(*ssa.Call) bool) map[ssa.Value]bool {
+	return backward(v, followCall, false)
+}
+
+// BackwardDirect is Backward restricted to direct value flow: loads from
+// non-local memory (fields of heap objects) are leaves, so values that merely
+// live in the same object are not mixed in. Local cells and composite literals
+// under construction are still followed.
+func BackwardDirect(v ssa.Value, followCall func(*ssa.Call) bool) map[ssa.Value]bool {
+	return backward(v, followCall, true)
+}
+
+func backward(v ssa.Value, followCall func(*ssa.Call) bool, direct bool) map[ssa.Value]bool {
 	set := map[ssa.Value]bool{}
 	var visit func(x ssa.Value)
 	visit = func(x ssa.Value) {
@@ -426,6 +438,11 @@ func BackwardOpt(v ssa.Value, followCall func(*ssa.Call) bool) map[ssa.Value]boo
 							visit(s.Val)
 						}
 					}
+					break
+				}
+				if direct {
+					// a load from memory that is not a plain local cell: leaf (keep the address for inspection)
+					set[t.X] = true
 					break
 				}
 				visit(t.X)
